@@ -499,13 +499,31 @@ def run(rep, tier, seed):
                 smeta.append((cls, entry, sname, t))
         if single:
             sres, _ = runner.run_cases(variant, single, rep.workdir, label="single", case_timeout=30)
-            for (cls, entry, sname, t), c, res in zip(smeta, single, sres):
+            # texts that stayed silent alone (30 s, then 150 s): bounded progress is judged once more, on the plain debug build
+            # (sanitizer builds are 5-20x slower), all of them side by side with 300 s each. At most 8 texts per class go through
+            # this last stage: it costs five minutes whatever it finds, and one confirmed hang per class is a verdict already.
+            hung = [j for j, res in enumerate(sres) if "rs" not in res and "timeout" in res]
+            per_class, slow_idx = {}, []
+            for j in hung:
+                c_ = smeta[j][0]
+                per_class[c_] = per_class.get(c_, 0) + 1
+                if per_class[c_] <= 8:
+                    slow_idx.append(j)
+                else:
+                    rep.bump("timeouts_not_confirmed_beyond_8_per_class")
+            slow_res = {}
+            if slow_idx:
+                again, _ = runner.run_cases("dbg" if variant == "asan" else variant, [single[j] for j in slow_idx], rep.workdir, label="slow", case_timeout=300, confirm_timeouts=False)
+                slow_res = dict(zip(slow_idx, again))
+            for j, ((cls, entry, sname, t), c, res) in enumerate(zip(smeta, single, sres)):
                 if "rs" in res:
                     _scan(rep, variant, cls, entry, sname, [t], res["rs"], c)
                     continue
                 if "timeout" in res:
-                    # bounded progress is judged on the plain debug build (sanitizer builds are 5-20x slower)
-                    res2, _ = runner.run_single("dbg" if variant == "asan" else variant, c, rep.workdir, label="slow", case_timeout=300)
+                    if j not in slow_res:
+                        rep.count()  # accounted for: same class as a text that went through the last stage
+                        continue
+                    res2 = slow_res[j]
                     if "rs" in res2:
                         _scan(rep, variant, cls, entry, sname, [t], res2["rs"], c)
                         rep.bump("slow_but_finished")
